@@ -48,6 +48,24 @@ def r1(run):
         vty = b.types.s(tyargs[1]) if len(tyargs) > 1 else "?"
         kv = kty
         is_tuple_key = kty.startswith("(") and SCRU in kty and "alloc::string::String" in kty
+        if not is_tuple_key and tyargs:
+            # a private key struct with the same two components: { context_id: Scru128Id, <name>: String } deriving Eq + Hash
+            adn = b.types.adt_name(tyargs[0])
+            adt = run.facts.adt(adn) if adn else None
+            if adt and adt.get("variants") and len(adt["variants"]) == 1:
+                ftys = [b.types.s(f["ty"]) if isinstance(f.get("ty"), int) else str(f.get("ty") or "") for f in adt["variants"][0]["fields"]]
+                fnames = [f["name"] for f in adt["variants"][0]["fields"]]
+                ftxt = " ".join(str(x) for x in ftys)
+                is_tuple_key = any("context" in n for n in fnames) and len(fnames) == 2 and (SCRU.split("::")[-1] in ftxt and "String" in ftxt)
+                # its Eq / Hash must be the derived (field-wise) ones
+                derived_ok = {"core::cmp::PartialEq": False, "core::hash::Hash": False}
+                for cr in run.facts.crates:
+                    for im in cr.impls:
+                        if im.get("self_s") == adn or str(im.get("self_s", "")).endswith(adn.split("::")[-1]):
+                            for tr in derived_ok:
+                                if im.get("trait") == tr and im.get("derived"):
+                                    derived_ok[tr] = True
+                is_tuple_key = is_tuple_key and all(derived_ok.values())
         maps.add((run.facts.enclosing_fn(b).rsplit("::", 1)[0], vty))
         key = c.arg(1)
         origins = []
